@@ -115,21 +115,34 @@ func (p Polygon) Centroid() Point {
 	var A, xA, yA float64
 	for _, r := range p {
 		a := signedarea(r)
-		cx, cy := 0., 0.
 		if r[len(r)-1] != r[0] {
 			r = append(r, r[0])
 		}
-		for i := 0; i < len(r)-1; i++ {
-			cx += (r[i].X + r[i+1].X) *
-				(r[i].X*r[i+1].Y - r[i+1].X*r[i].Y)
-			cy += (r[i].Y + r[i+1].Y) *
-				(r[i].X*r[i+1].Y - r[i+1].X*r[i].Y)
-		}
-		cx /= 6 * a
-		cy /= 6 * a
+		cx, cy := ringCentroid(r, a)
 		A += a
 		xA += cx * a
 		yA += cy * a
 	}
 	return Point{X: xA / A, Y: yA / A}
+}
+
+// ringCentroid returns the centroid of the closed ring r, where sa is the
+// signed area of r. The sums are formed from coordinates relative to the
+// first vertex of the ring: products of absolute coordinates lose all
+// significant digits for rings that are small compared with their distance
+// from the origin (a 10 m ring in projected coordinates of 1e7 m was placed
+// hundreds of metres outside its own bounding box).
+func ringCentroid(r []Point, sa float64) (cx, cy float64) {
+	if len(r) == 0 {
+		return 0, 0
+	}
+	o := r[0]
+	for i := 0; i < len(r)-1; i++ {
+		x0, y0 := r[i].X-o.X, r[i].Y-o.Y
+		x1, y1 := r[i+1].X-o.X, r[i+1].Y-o.Y
+		cross := x0*y1 - x1*y0
+		cx += (x0 + x1) * cross
+		cy += (y0 + y1) * cross
+	}
+	return o.X + cx/(6*sa), o.Y + cy/(6*sa)
 }
